@@ -247,6 +247,7 @@ class Funcs:
         self.unflatten_calls = 0
         self.malform = None
         self.keep = None  # when a list: every children list handed to the engine is appended (C16 mutates it)
+        self.reverse = False  # children handed over (and taken back) in REVERSE order: a registration with another convention
         self.keep_entries = None  # when a list: every ENTRIES list handed to the engine is appended (C14 mutates it later)
 
     def meta(self, aux):
@@ -265,6 +266,8 @@ class Funcs:
             ch = []  # a scalar registered as a (childless) custom node
         else:
             ch = list(node)
+        if self.reverse:
+            ch = list(reversed(ch))
         n = len(ch)
         if not hasattr(node, 'aux'):
             node = _NoAux
@@ -342,7 +345,7 @@ class Funcs:
             if hasattr(cls, '_fields'):
                 return cls(*children)
             return cls(tuple(children))
-        node = cls(children, aux)
+        node = cls(list(reversed(list(children))) if self.reverse else children, aux)
         node.built_by = (self.rid, rid)
         return node
 
